@@ -6,6 +6,7 @@ Reads <repo>/net/net.go and writes <gendir>/NetConsts.v with
   * msg_type_none/discovery/mpc   the MsgType constants (iota block)
   * topic_types         the message types mapped to true in the shouldHaveTopic table (sorted)
   * send_timeout_panics syntactic flag: the onTimeout closure of SocketRemoteParties.Send contains a panic call
+  * accept_loop_hands_off syntactic flag: the accept loop only hands an accepted connection to `go handleConn`
   * single_writer_once_guarded syntactic flag: the writer goroutine of a destination is started only through a sync.Once
 The file is only rewritten when its content changes (so that an unchanged tree does not trigger a rebuild).
 Anything it cannot parse is an error (exit 1): a silent default would hide an edit of the Go source."""
@@ -118,14 +119,33 @@ def parse(src):
     single = (starts == 1 and calls == 1 and
               any(so == "rp.%s.Do(func(){gorp.sendMessages()})" % f for f in once_fields) and
               bool(re.search(r"\bp\.startOnce\(\)", body)))
-    return consts, sorted(set(topic)), panics, single
+    # accept loop of ServiceConnections: an accepted connection is only handed to its own goroutine -- besides the
+    # `conn, err := listener.Accept()` that defines it, every mention of conn sits in one `go handleConn(...)` statement,
+    # so nothing in the (single) accept goroutine can block on a client
+    m = re.search(r"\bfunc\s+ServiceConnections\s*\(", src)
+    if not m:
+        raise ValueError("ServiceConnections not found")
+    sc = block_after(src, src.index("{", src.index(")", m.end())))
+    m = re.search(r"\bfor\s+atomic\.LoadUint32\(&stopFlag\)\s*==\s*0\s*\{", sc)
+    if not m:
+        raise ValueError("accept loop of ServiceConnections not found")
+    loop = block_after(sc, m.end() - 1)
+    accepts = re.findall(r"\b(\w+)\s*,\s*err\s*:=\s*listener\.Accept\(\)", loop)
+    handoff = False
+    if len(accepts) == 1:
+        cv = accepts[0]
+        mentions = len(re.findall(r"\b%s\b" % re.escape(cv), loop))
+        gos = re.findall(r"\bgo\s+handleConn\(([^()]*)\)", loop)
+        handoff = (mentions == 2 and len(gos) == 1 and len(re.findall(r"\b%s\b" % re.escape(cv), gos[0])) == 1 and
+                   not re.search(r"\.Handshake\s*\(|\.Read\s*\(|\.Write\s*\(|io\.Read", loop))
+    return consts, sorted(set(topic)), panics, single, handoff
 
 
 def main():
     repo, gendir = sys.argv[1], sys.argv[2]
     src = open(os.path.join(repo, "net", "net.go"), encoding="utf-8").read()
     try:
-        consts, topic, panics, single = parse(src)
+        consts, topic, panics, single, handoff = parse(src)
     except Exception as e:  # noqa
         print("gen_netconsts: %s" % e)
         sys.exit(1)
@@ -150,6 +170,10 @@ def main():
         "(* syntactic: sendMessages is started at exactly one site, `rp.<f>.Do(func() { go rp.sendMessages() })` in startOnce with",
         "   <f> a sync.Once field of remoteParty, and Send calls startOnce: at most one writer goroutine per destination object *)",
         "Definition single_writer_once_guarded : bool := %s." % ("true" if single else "false"),
+        "",
+        "(* syntactic: in the accept loop of ServiceConnections the accepted connection is mentioned only where it is defined",
+        "   (listener.Accept) and in one `go handleConn(...)`: the accept goroutine never waits for a client *)",
+        "Definition accept_loop_hands_off : bool := %s." % ("true" if handoff else "false"),
         "",
     ])
     os.makedirs(gendir, exist_ok=True)
